@@ -70,149 +70,230 @@ def _is_id2index_refresh(stmt, cls):
     return False
 
 
+# value of every flag on the registered tree (/repo 38049d8, where every site is
+# read by the grammar below): the hand model a site falls back to when its
+# source can no longer be read (tie H for that site: the harness then widens
+# the correspondence on the operations the site decides)
+BASELINE = {'parent_refreshes_data': True, 'overwrite_uses_setter': True,
+            'frame_setter_refreshes_id2index': True, 'ids_setter_refreshes_id2index': True,
+            'scalar_key_uses_label': True}
+# operations / reads a site decides (used to bias the widened correspondence)
+SITE_OPS = {'parent_refreshes_data': ['SliceWrite'], 'overwrite_uses_setter': ['Overwrite'],
+            'frame_setter_refreshes_id2index': ['Update', 'SetFrame'],
+            'ids_setter_refreshes_id2index': ['SetIds'], 'scalar_key_uses_label': ['SliceWrite'],
+            'id_keyed_filters': []}
+
+
+def _leaves(e):
+    """alternatives an expression can evaluate to (conditional expressions opened)"""
+    if isinstance(e, ast.IfExp):
+        return _leaves(e.body) + _leaves(e.orelse)
+    return [e]
+
+
+def _scalar_label_decision(branch, key_name, df_name):
+    """In the single-row branch of _Indexer.__getitem__: is the id of the slice
+    the index label of the selected row (`<df>.name` / `<df>[0].name`) or the
+    key the caller passed?  Every assignment to `ids` in the branch is looked
+    at, however the branch is nested or the alternatives are written."""
+    kinds = set()
+    for n in ast.walk(ast.Module(body=list(branch), type_ignores=[])):
+        if isinstance(n, ast.Assign) and any(isinstance(t, ast.Name) and t.id == 'ids' for t in n.targets):
+            v = n.value
+            if not (isinstance(v, ast.List) and len(v.elts) == 1):
+                raise TranslateError('_Indexer.__getitem__: single-row ids is not a one-element list')
+            for leaf in _leaves(v.elts[0]):
+                if isinstance(leaf, ast.Name) and leaf.id == key_name:
+                    kinds.add('key')
+                elif isinstance(leaf, ast.Attribute) and leaf.attr == 'name' and (
+                        (isinstance(leaf.value, ast.Name) and leaf.value.id == df_name) or
+                        (isinstance(leaf.value, ast.Subscript) and isinstance(leaf.value.value, ast.Name)
+                         and leaf.value.value.id == df_name)):
+                    kinds.add('label')
+                else:
+                    raise TranslateError('_Indexer.__getitem__: unrecognised single-row id expression')
+    if kinds == {'label'}:
+        return True
+    if kinds == {'key'}:
+        return False
+    raise TranslateError('_Indexer.__getitem__: single-row ids not assigned uniformly')
+
+
 def translate(repo):
+    """-> (cfg, consumed, unreadable).  A site whose source is not in the
+    grammar gets its BASELINE value and an entry {flag: reason} in `unreadable`
+    (degrade T -> H; never an alarm by itself)."""
     repo = Path(repo)
     consumed = {}
+    unreadable = {}
     f_attr = repo / 'femio' / 'fem_attribute.py'
     f_attrs = repo / 'femio' / 'fem_attributes.py'
     src_a = f_attr.read_text()
     src_s = f_attrs.read_text()
     tree_a = ast.parse(src_a)
     tree_s = ast.parse(src_s)
-    A = _find_class(tree_a, 'FEMAttribute')
-    I = _find_class(tree_a, '_Indexer')
-    S = _find_class(tree_s, 'FEMAttributes')
     cfg = {}
 
+    def cls(tree, name):
+        return _find_class(tree, name)
+
+    def site(flag, fn):
+        try:
+            cfg[flag] = fn()
+        except TranslateError as e:
+            cfg[flag] = BASELINE[flag]
+            unreadable[flag] = str(e)
+
     # 1. _update_parent
-    fns = _find_funcs(A, '_update_parent')
-    if len(fns) != 1:
-        raise TranslateError('_update_parent not found exactly once')
-    consumed['fem_attribute.py:FEMAttribute._update_parent'] = _region(src_a, fns[0])
-    b = [ast.dump(s) for s in _body(fns[0])]
-    head = _d('if self.parent is None:\n    return\n'
-              'self.parent._data_frame.loc[self._data_frame.index] = self._data_frame\n')
-    refresh = _d('self.parent._data = self.parent._data_frame.values\n')
-    if b == head:
-        cfg['parent_refreshes_data'] = False
-    elif b == head + refresh:
-        cfg['parent_refreshes_data'] = True
-    else:
+    def s1():
+        A = cls(tree_a, 'FEMAttribute')
+        fns = _find_funcs(A, '_update_parent')
+        if len(fns) != 1:
+            raise TranslateError('_update_parent not found exactly once')
+        consumed['fem_attribute.py:FEMAttribute._update_parent'] = _region(src_a, fns[0])
+        b = [ast.dump(s) for s in _body(fns[0])]
+        head = _d('if self.parent is None:\n    return\n'
+                  'self.parent._data_frame.loc[self._data_frame.index] = self._data_frame\n')
+        refresh = _d('self.parent._data = self.parent._data_frame.values\n')
+        if b == head:
+            return False
+        if b == head + refresh:
+            return True
         raise TranslateError('_update_parent: unrecognised body')
+    site('parent_refreshes_data', s1)
 
     # 2. FEMAttributes.overwrite, branch `ids is None`
-    fns = _find_funcs(S, 'overwrite')
-    if len(fns) != 1:
-        raise TranslateError('FEMAttributes.overwrite not found exactly once')
-    consumed['fem_attributes.py:FEMAttributes.overwrite'] = _region(src_s, fns[0])
-    b = _body(fns[0])
-    exp_head = _d('if name not in self:\n    raise ValueError(f"{name} not in the data {self.keys()}")\n')
-    exp_tail = _d('if name in config.LIST_MATERIALS:\n    self.material_overwritten = True\n')
-    if len(b) != 3 or ast.dump(b[0]) != exp_head[0] or ast.dump(b[2]) != exp_tail[0] \
-            or not isinstance(b[1], ast.If):
-        raise TranslateError('overwrite: unrecognised structure')
-    br = b[1]
-    if ast.dump(br.test) != ast.dump(ast.parse('ids is None').body[0].value):
-        raise TranslateError('overwrite: unrecognised test')
-    if [ast.dump(s) for s in br.orelse] != _d(
-            'fem_attribute = FEMAttribute(name, ids=ids, data=data)\nself[name] = fem_attribute\n'):
-        raise TranslateError('overwrite: unrecognised ids branch')
-    then = [ast.dump(s) for s in br.body]
-    if then == _d('self[name]._data = data\n'):
-        cfg['overwrite_uses_setter'] = False
-    elif then == _d('self[name].data = data\n'):
-        cfg['overwrite_uses_setter'] = True
-    else:
+    def s2():
+        S = cls(tree_s, 'FEMAttributes')
+        fns = _find_funcs(S, 'overwrite')
+        if len(fns) != 1:
+            raise TranslateError('FEMAttributes.overwrite not found exactly once')
+        consumed['fem_attributes.py:FEMAttributes.overwrite'] = _region(src_s, fns[0])
+        b = _body(fns[0])
+        exp_head = _d('if name not in self:\n    raise ValueError(f"{name} not in the data {self.keys()}")\n')
+        exp_tail = _d('if name in config.LIST_MATERIALS:\n    self.material_overwritten = True\n')
+        if len(b) != 3 or ast.dump(b[0]) != exp_head[0] or ast.dump(b[2]) != exp_tail[0] \
+                or not isinstance(b[1], ast.If):
+            raise TranslateError('overwrite: unrecognised structure')
+        br = b[1]
+        if ast.dump(br.test) != ast.dump(ast.parse('ids is None').body[0].value):
+            raise TranslateError('overwrite: unrecognised test')
+        if [ast.dump(s) for s in br.orelse] != _d(
+                'fem_attribute = FEMAttribute(name, ids=ids, data=data)\nself[name] = fem_attribute\n'):
+            raise TranslateError('overwrite: unrecognised ids branch')
+        then = [ast.dump(s) for s in br.body]
+        if then == _d('self[name]._data = data\n'):
+            return False
+        if then == _d('self[name].data = data\n'):
+            return True
         raise TranslateError('overwrite: unrecognised `ids is None` branch')
+    site('overwrite_uses_setter', s2)
 
     # 3. data_frame setter, 4. ids setter
-    def setter(name):
+    def setter(A, name):
         for fn in _find_funcs(A, name):
             for dec in fn.decorator_list:
                 if isinstance(dec, ast.Attribute) and dec.attr == 'setter':
                     return fn
         raise TranslateError(f'{name} setter not found')
 
-    fn = setter('data_frame')
-    consumed['fem_attribute.py:FEMAttribute.data_frame.setter'] = _region(src_a, fn)
-    b = _body(fn)
-    exp_if = _d(
-        'if isinstance(new_data_frame, pd.DataFrame):\n'
-        '    self._data_frame = new_data_frame\n'
-        '    self._data = new_data_frame.values\n'
-        'elif isinstance(new_data_frame, (list, tuple)):\n'
-        '    self._data_frame = new_data_frame\n'
-        '    self._data = np.array([d.values for d in new_data_frame])\n'
-        'else:\n'
-        '    raise ValueError(f"Unsupported new_data_frame type for: {new_data_frame}")\n')
-    upd_parent = _d('self._update_parent()\n')
-    if not b or ast.dump(b[0]) != exp_if[0] or ast.dump(b[-1]) != upd_parent[0]:
-        raise TranslateError('data_frame setter: unrecognised body')
-    mid = b[1:-1]
-    if not mid:
-        cfg['frame_setter_refreshes_id2index'] = False
-    elif len(mid) == 1 and _is_id2index_refresh(mid[0], A):
-        cfg['frame_setter_refreshes_id2index'] = True
-    else:
+    def s3():
+        A = cls(tree_a, 'FEMAttribute')
+        fn = setter(A, 'data_frame')
+        consumed['fem_attribute.py:FEMAttribute.data_frame.setter'] = _region(src_a, fn)
+        b = _body(fn)
+        exp_if = _d(
+            'if isinstance(new_data_frame, pd.DataFrame):\n'
+            '    self._data_frame = new_data_frame\n'
+            '    self._data = new_data_frame.values\n'
+            'elif isinstance(new_data_frame, (list, tuple)):\n'
+            '    self._data_frame = new_data_frame\n'
+            '    self._data = np.array([d.values for d in new_data_frame])\n'
+            'else:\n'
+            '    raise ValueError(f"Unsupported new_data_frame type for: {new_data_frame}")\n')
+        upd_parent = _d('self._update_parent()\n')
+        if not b or ast.dump(b[0]) != exp_if[0] or ast.dump(b[-1]) != upd_parent[0]:
+            raise TranslateError('data_frame setter: unrecognised body')
+        mid = b[1:-1]
+        if not mid:
+            return False
+        if len(mid) == 1 and _is_id2index_refresh(mid[0], A):
+            return True
         raise TranslateError('data_frame setter: unrecognised statement')
+    site('frame_setter_refreshes_id2index', s3)
 
-    fn = setter('ids')
-    consumed['fem_attribute.py:FEMAttribute.ids.setter'] = _region(src_a, fn)
-    b = _body(fn)
-    if not b or ast.dump(b[0]) != _d('self._data_frame.index = value\n')[0]:
-        raise TranslateError('ids setter: unrecognised body')
-    if len(b) == 1:
-        cfg['ids_setter_refreshes_id2index'] = False
-    elif len(b) == 2 and _is_id2index_refresh(b[1], A):
-        cfg['ids_setter_refreshes_id2index'] = True
-    else:
+    def s4():
+        A = cls(tree_a, 'FEMAttribute')
+        fn = setter(A, 'ids')
+        consumed['fem_attribute.py:FEMAttribute.ids.setter'] = _region(src_a, fn)
+        b = _body(fn)
+        if not b or ast.dump(b[0]) != _d('self._data_frame.index = value\n')[0]:
+            raise TranslateError('ids setter: unrecognised body')
+        if len(b) == 1:
+            return False
+        if len(b) == 2 and _is_id2index_refresh(b[1], A):
+            return True
         raise TranslateError('ids setter: unrecognised statement')
+    site('ids_setter_refreshes_id2index', s4)
 
-    # 5. _Indexer.__getitem__, scalar-key branch
-    fns = _find_funcs(I, '__getitem__')
-    if len(fns) != 1:
-        raise TranslateError('_Indexer.__getitem__ not found')
-    consumed['fem_attribute.py:_Indexer.__getitem__'] = _region(src_a, fns[0])
-    b = _body(fns[0])
-    if len(b) < 2 or ast.dump(b[0]) != _d('sliced_df = self.indexer[key]\n')[0] \
-            or not isinstance(b[1], ast.If) \
-            or ast.dump(b[1].test) != ast.dump(ast.parse('sliced_df.ndim == 1').body[0].value):
-        raise TranslateError('_Indexer.__getitem__: unrecognised head')
-    scal = [ast.dump(s) for s in b[1].body]
-    if scal == _d('new_length = 1\nids = [key]\n'):
-        cfg['scalar_key_uses_label'] = False
-    elif scal == _d('new_length = 1\n'
-                    'if self.original_fem_attribute.time_series:\n'
-                    '    ids = [sliced_df[0].name]\n'
-                    'else:\n'
-                    '    ids = [sliced_df.name]\n'):
-        cfg['scalar_key_uses_label'] = True
-    else:
-        raise TranslateError('_Indexer.__getitem__: unrecognised scalar-key branch')
-    # 6. the id-keyed filters the model represents by select_ids / cfilter / cextract: exact bodies
+    # 5. _Indexer.__getitem__, single-row branch: read by meaning (which value
+    #    becomes the id of the slice), not by spelling
+    def s5():
+        I = cls(tree_a, '_Indexer')
+        fns = _find_funcs(I, '__getitem__')
+        if len(fns) != 1:
+            raise TranslateError('_Indexer.__getitem__ not found')
+        fn = fns[0]
+        consumed['fem_attribute.py:_Indexer.__getitem__'] = _region(src_a, fn)
+        args = [a.arg for a in fn.args.args]
+        if len(args) != 2:
+            raise TranslateError('_Indexer.__getitem__: unexpected signature')
+        key_name = args[1]
+        b = _body(fn)
+        # the selected frame: <df> = self.indexer[<key>]
+        df_name = None
+        for s_ in b:
+            if isinstance(s_, ast.Assign) and len(s_.targets) == 1 and isinstance(s_.targets[0], ast.Name) \
+                    and ast.dump(s_.value) == ast.dump(ast.parse(f'self.indexer[{key_name}]').body[0].value):
+                df_name = s_.targets[0].id
+                break
+        if df_name is None:
+            raise TranslateError('_Indexer.__getitem__: selection `self.indexer[key]` not found')
+        test = ast.dump(ast.parse(f'{df_name}.ndim == 1').body[0].value)
+        branches = [s_ for s_ in b if isinstance(s_, ast.If) and ast.dump(s_.test) == test]
+        if len(branches) != 1:
+            raise TranslateError('_Indexer.__getitem__: single-row branch not found exactly once')
+        return _scalar_label_decision(branches[0].body, key_name, df_name)
+    site('scalar_key_uses_label', s5)
+
+    # 6. the id-keyed filters the model represents by select_ids / cfilter / cextract: a body
+    #    other than the registered one is no alarm, it makes the harness search deeper
     exact = [
-        (A, src_a, 'fem_attribute.py', 'filter_with_ids',
+        ('FEMAttribute', tree_a, src_a, 'fem_attribute.py', 'filter_with_ids',
          'return FEMAttribute(self.name, ids, self._data_frame.loc[ids].values, silent=True, '
          'time_series=self.time_series)\n'),
-        (S, src_s, 'fem_attributes.py', 'filter_with_ids',
+        ('FEMAttributes', tree_s, src_s, 'fem_attributes.py', 'filter_with_ids',
          'return FEMAttributes({key: value.filter_with_ids(ids) for key, value in self.items()}, '
          'is_elemental=self.is_elemental)\n'),
-        (S, src_s, 'fem_attributes.py', 'extract_dict',
+        ('FEMAttributes', tree_s, src_s, 'fem_attributes.py', 'extract_dict',
          'return {k: v.loc[ids].values for k, v in self.items()}\n'),
     ]
-    for cls, src, fname, fn, expected in exact:
-        fns = _find_funcs(cls, fn)
-        if len(fns) != 1:
-            raise TranslateError(f'{fname}: {fn} not found exactly once')
-        consumed[f'{fname}:{cls.name}.{fn}'] = _region(src, fns[0])
-        body = [s for s in fns[0].body if not (isinstance(s, ast.Expr) and isinstance(
-            getattr(s, 'value', None), ast.Constant) and isinstance(s.value.value, str))]
-        if [ast.dump(s) for s in body] != _d(expected):
-            raise TranslateError(f'{fname}: {cls.name}.{fn}: body is not the id-keyed selection the '
-                                 'model represents')
-    # the list-key branch and the construction of the slice are part of the
-    # hand model; their text is hashed so that an edit is visible in the evidence
-    return cfg, consumed
+    for cname, tree, src, fname, fn, expected in exact:
+        try:
+            c_ = cls(tree, cname)
+            fns = _find_funcs(c_, fn)
+            if len(fns) != 1:
+                raise TranslateError(f'{fname}: {fn} not found exactly once')
+            consumed[f'{fname}:{cname}.{fn}'] = _region(src, fns[0])
+            body = [s for s in fns[0].body if not (isinstance(s, ast.Expr) and isinstance(
+                getattr(s, 'value', None), ast.Constant) and isinstance(s.value.value, str))]
+            if [ast.dump(s) for s in body] != _d(expected):
+                raise TranslateError(f'{fname}: {cname}.{fn}: body differs from the registered id-keyed '
+                                     'selection')
+        except TranslateError as e:
+            unreadable.setdefault('id_keyed_filters', '')
+            unreadable['id_keyed_filters'] = (unreadable['id_keyed_filters'] + '; ' + str(e)).strip('; ')
+    return cfg, consumed, unreadable
 
 
 FIELDS = ['parent_refreshes_data', 'overwrite_uses_setter', 'frame_setter_refreshes_id2index',
@@ -229,6 +310,7 @@ def emit(cfg):
 
 if __name__ == '__main__':
     import sys
-    c, cons = translate(sys.argv[1] if len(sys.argv) > 1 else '/repo')
+    c, cons, unread = translate(sys.argv[1] if len(sys.argv) > 1 else '/repo')
     print(emit(c))
     print(cons)
+    print('unreadable:', unread)
